@@ -8,4 +8,4 @@ CONSTANTS
   Ops = {"vector"}
 VIEW ViewNoHist
 INVARIANTS TypeOK
-PROPERTIES ProofAcceptIffStatement PartAcceptIffOwnIndex ProofQuorum NarrowRejected NewPartOwnIndex
+PROPERTIES ProofAcceptIffStatement PartAcceptIffOwnIndex ProofQuorum NarrowRejected NewPartOwnIndex SameAnswerAgain ReplayRejected
